@@ -491,6 +491,39 @@ func runC01(c *Ctx) {
 	}
 
 	// retrieval: the rule handed back for an index is the rule stored there (file and string backing, cache key)
+	// ---------- R8: the $domain conjunct tests the very name the domains table is probed with ----------
+	{
+		c.Rule("C01.R8", "WIRE", "the $domain conjunct of Match tests the source hostname itself (the string the domains table is probed with), against the rule's own domain lists", 2)
+		msd := c.P.Method("rules", "NetworkRule", "matchSourceDomain")
+		if msd == nil {
+			c.Fail("C01.R8", "anchor:matchSourceDomain", 0, "unresolved anchor")
+		} else {
+			g := NewGate(c.P)
+			g.Inline = inlineOnly()
+			if t := c.P.Func("rules", "isDomainOrSubdomainOfAny"); t != nil {
+				g.Pure[FuncName(t)] = true
+			}
+			s := g.Eval(msd)
+			u := g.U
+			ps := g.ParamExprs(msd)
+			f, name := ps[0], ps[1]
+			H := u.ToBool(g.RetExpr(s, 0))
+			n := 0
+			for _, at := range u.AtomsOf(H) {
+				if at.Op != "call" || len(at.Args) < 2 || !strings.HasSuffix(at.Aux, "isDomainOrSubdomainOfAny") {
+					continue
+				}
+				n++
+				okName := at.Args[0] == name
+				okList := at.Args[1].Op == "field" && at.Args[1].Args[0] == f && (at.Args[1].Aux == "permittedDomains" || at.Args[1].Aux == "restrictedDomains")
+				c.Check(okName && okList, "C01.R8", shortFn(msd)+": domain test on "+clip(u.Show(at.Args[1]), 40), msd.Pos(), "the name handed in, the rule's own list",
+					"the $domain test is applied to "+clip(u.Show(at.Args[0]), 80)+" / "+clip(u.Show(at.Args[1]), 60)+", not to the source hostname as it stands: Match then accepts names (another letter case, another form) under which the domains table never files or finds the rule")
+			}
+			if n == 0 {
+				c.Fail("C01.R8", shortFn(msd)+": domain tests", msd.Pos(), "UNDECIDED: the result does not depend on a domain test")
+			}
+		}
+	}
 	importRules(c, runC11, map[string]string{"C11.R4": "C01.R7", "C11.R5": "C01.R7", "C11.R1": "C01.R7", "C11.R3": "C01.R7"},
 		map[string]string{"C01.R7": "index -> rule retrieval returns the rule that was scanned at that index (shared with C11.R1/R3/R4/R5)"})
 	importRules(c, runC19, map[string]string{"C19.R4": "C01.R7"}, nil)
